@@ -24,6 +24,7 @@ mod shape_corr;
 mod lists_corr;
 mod strings_corr;
 mod macros_corr;
+mod missed_corr;
 mod corpus;
 mod gen;
 mod sweep;
@@ -99,6 +100,9 @@ fn main() {
         "c18" => c18::run(&tier, seed, &out),
         "strings" => strings_corr::run(&tier, seed, &out),
         "macros" => macros_corr::run(&tier, seed, &out),
+        "missed" => missed_corr::run(&tier, seed, &out),
+        "missed-width" => missed_corr::width_probe(),
+        "missed-c03" | "missed-c08" | "missed-c16" | "missed-c02" => missed_corr::run_part(&prop[7..], &tier, seed, &out),
         "boundary" => boundary::main(&args[2..]),
         "c03" => c03::run(&tier, seed, &out),
         "lists" => lists_corr::run(&tier, seed, &out),
